@@ -114,6 +114,28 @@ def gen_c01_sites():
                 r'ValueFunction\s+makeValueFunction\s*\([^)]*\)\s*\{\s*auto\s+values\s*=\s*Values\s*\(\s*S\s*\)\s*;\s*values\.setZero\(\)\s*;\s*return\s*\{\s*values\s*,\s*Actions\s*\(\s*S\s*,\s*0\s*\)\s*\}\s*;',
                 r'ValueFunction\s+bellmanOperator\s*\([^)]*\)\s*\{\s*const\s+auto\s+S\s*=\s*q\.rows\(\)\s*;\s*ValueFunction\s+vf\s*\{\s*Values\s*\(\s*S\s*\)\s*,\s*Actions\s*\(\s*S\s*\)\s*\}\s*;\s*bellmanOperatorInplace\s*\(\s*q\s*,\s*&vf\s*\)\s*;\s*return\s+vf\s*;'], rel4)
     rows.append(('makeSites', 'List String', '["makeQZero", "makeVFZeroActionsS", "bellmanOperatorWrapsInplace"]', rel4, 1))
+    # ValueIteration: the start-selection block assigns v1_ on both branches before anything reads it; setters
+    rel5 = 'include/AIToolbox/MDP/Algorithms/ValueIteration.hpp'
+    s5 = E.strip_comments(E.read(rel5))
+    b5 = s5[s5.index('ValueIteration::operator()'):]
+    _order(b5, [r'const\s+size_t\s+size\s*=\s*vParameter_\.values\.size\(\)\s*;', r'if\s*\(\s*size\s*!=\s*S\s*\)',
+                r'v1_\s*=\s*makeValueFunction\s*\(\s*S\s*\)\s*;', r'else', r'v1_\s*=\s*vParameter_\s*;'], rel5)
+    first = re.search(r'\bv1_\b', b5)
+    if not first or not re.match(r'v1_\s*=\s*makeValueFunction', b5[first.start():]):
+        raise E.ExtractError('ValueIteration::operator() touches v1_ before the start-selection block assigns it')
+    if re.search(r'\bv1_\b', b5[:b5.index('const size_t size')]):
+        raise E.ExtractError('ValueIteration::operator() reads v1_ before selecting the start')
+    rows.append(('viStartSites', 'List String', '["sizeOfParam", "neS", "defaultZero", "else", "copyParam", "v1NotReadBefore"]', rel5, 1))
+    rel6 = 'src/MDP/Algorithms/ValueIteration.cpp'
+    s6 = E.strip_comments(E.read(rel6))
+    _order(s6, [r'void\s+ValueIteration::setTolerance\s*\(\s*const\s+double\s+t\s*\)\s*\{\s*if\s*\(\s*t\s*<\s*0\.0\s*\)\s*throw\s+std::invalid_argument',
+                r'tolerance_\s*=\s*t\s*;', r'void\s+ValueIteration::setHorizon\s*\([^)]*\)\s*\{\s*horizon_\s*=\s*h\s*;',
+                r'void\s+ValueIteration::setValueFunction\s*\([^)]*\)\s*\{\s*vParameter_\s*=\s*std::move\(v\)\s*;'], rel6)
+    rel7 = 'include/AIToolbox/MDP/Algorithms/Utils/PolicyEvaluation.hpp'
+    s7 = E.strip_comments(E.read(rel7))
+    _order(s7, [r'void\s+PolicyEvaluation<M>::setTolerance\s*\(\s*const\s+double\s+t\s*\)\s*\{\s*if\s*\(\s*t\s*<\s*0\.0\s*\)\s*throw\s+std::invalid_argument',
+                r'tolerance_\s*=\s*t\s*;'], rel7)
+    rows.append(('setterSites', 'List String', '["viTolThrowsNeg", "viTolAssign", "viHorizon", "viParam", "peTolThrowsNeg", "peTolAssign"]', rel6, 1))
     rel = 'include/AIToolbox/MDP/Algorithms/PolicyIteration.hpp'
     s = E.strip_comments(E.read(rel))
     body = s[s.index('PolicyIteration::operator()'):]
